@@ -79,7 +79,8 @@ def stage(rep, prop, family, n, known_db, label=None):
 
 
 PROFILES = {
-    "C06": dict(families=[(["flat", "nested"], (120, 2500)), ("cashstep", (24, 300))], mc=("F2zero", 2, 2, 1)),
+    "C06": dict(families=[(["flat", "nested"], (120, 2500)), ("cashstep", (24, 300))], mc=("F2zero", 2, 2, 1),
+                tree=(dict(nops=14, trees=["N1", "S2", "N2", "N1"], leverage=True, comm="zero", p_flow=0.1), (120, 2500))),
 }
 
 
@@ -96,6 +97,18 @@ def run(prop, tier, replay=None):
     rep.cov["exhaustive"] = bool(complete)
     for fam, (nq, nt) in prof["families"]:
         stage(rep, prop, fam, nq if tier == "quick" else nt, known_db)
+    if "tree" in prof:
+        # tree-level histories: sub-strategies holding longs and shorts, re-allocated by their parents
+        kw, (nq, nt) = prof["tree"]
+        n = nq if tier == "quick" else nt
+        traces = [t for t in common.pool_map(check_tree._run_one_fast, [(common.seed(), 70000 + i, kw, 0.0) for i in range(n)]) if "setup_exc" not in t]
+        try:
+            verdicts, st = common.validate_parallel("Trace_BtAbs", [{"tid": t["tid"], "C": t["C"], "events": t["events"]} for t in traces])
+            rep.add_tlc(st["generated"], st["distinct"], key="validation:Trace_BtAbs(tree histories)", seconds=round(st["seconds"], 1), batches=st["batches"])
+            rep.cov["traces_validated_against_impl"] += len(verdicts)
+            check_tree.classify(rep, prop, traces, verdicts, known_db)
+        except tlcrun.TlcError as e:
+            rep.machinery_errors.append(str(e)[:1500])
     rep.extra["sources"] = __import__("btload").source_info()
     rep.assumptions = [
         "programs from the generator grammar (harness/btgen.py): stock algos only plus SetCash (temp['cash'])",
